@@ -130,6 +130,13 @@ theorem group_source_meanings :
       p.1.src ∈ allowed ∧ (groupPhaseOfFn p.1.fn = "any" ∨ groupPhaseOfField p.2.field = "any" ∨ groupPhaseOfFn p.1.fn = groupPhaseOfField p.2.field) := by
   decide +kernel
 
+/-- Class `rawUnits` (the reader keeps output units, a UDA dimension converts later): the writer converts with exactly
+the measure of that dimension, and every such member is listed. -/
+theorem group_raw_units_measures :
+    ∀ p ∈ gpairs gwriter greader, gpairCls p = .rawUnits →
+      (groupRawMeasure.lookup p.2.field).isSome ∧ Pre.measure? p.1.rpre = groupRawMeasure.lookup p.2.field := by
+  decide +kernel
+
 /-- XGRP members of RstGroup whose item, vector or measure disagrees with the writer's key map, with the reason. -/
 def xdeclaredExceptions : List (String × XCls) :=
   [("group.liquid_production_rate", .wrongVector),     -- item 3 (LiqPrRate) holds GVPR / FVPR, not GLPR
